@@ -119,4 +119,20 @@ def GeoJSON_check_raw_feature_signature : List String := ["cls", "feature", "war
 /-- the calls of dataiter/geojson.py: GeoJSON._check_raw_feature in the order Python makes them along the source text -/
 def GeoJSON_check_raw_feature_call_order : List String := ["TypeError", "set", "set", "print", "warned_feature_keys.append", "feature.properties.items", "tuple", "isinstance", "type", "TypeError"]
 
+/-- dataiter/geojson.py: GeoJSON.__init__ (sha256 of the function source: 03a6a986325a7a99) -/
+def GeoJSON_init (truth : Term → Bool) : Out :=
+  let eff0 : Term := (Term.app "super().__init__" [(Term.app "*" [(Term.sym "args")]), (Term.app "=**" [(Term.sym "kwargs")])]);
+  let attr1_1' : Term := (Term.app "AttributeDict" [(Term.app "=type" [(Term.sym "'FeatureCollection'")])]);
+  let eff1 : Term := (Term.app "setattr" [(Term.sym "self"), (Term.sym "metadata"), attr1_1']);
+  Out.fall [eff0, eff1]
+
+/-- the decorators of dataiter/geojson.py: GeoJSON.__init__, outermost first -/
+def GeoJSON_init_decorators : List String := []
+
+/-- the signature of dataiter/geojson.py: GeoJSON.__init__: parameters in order, with the source text of their defaults -/
+def GeoJSON_init_signature : List String := ["self", "*args", "**kwargs"]
+
+/-- the calls of dataiter/geojson.py: GeoJSON.__init__ in the order Python makes them along the source text -/
+def GeoJSON_init_call_order : List String := ["super", "super().__init__", "AttributeDict"]
+
 end DI.Gen
